@@ -276,7 +276,7 @@ var sizes = map[string]batchSizes{
 	"C08": {1200, 60000},
 	"C09": {8000, 1000000},
 	"C10": {6000, 1000000},
-	"C20": {5000, 1000000},
+	"C20": {12000, 1000000},
 }
 
 type runOutcome struct {
